@@ -149,3 +149,108 @@ def pair_groups(events):
         else:
             raise AnalysisBroken("PAIR macro at line %d expands to %d entries" % (line, len(ds)))
     return out
+
+
+# ---- channel / PRV specs reachable from the model_thread_spec / model_cpu_spec ----
+
+def _deref(prog, v, file):
+    """Follow an {'k':'addr'} initialiser to the global it names (same file first)."""
+    if v is None or v.get("k") != "addr":
+        return None
+    g = prog.glob(v["name"], file, required=False)
+    if g is None:
+        g = prog.glob(v["name"], required=False)
+    return g
+
+
+def _int_array(g):
+    if g is None:
+        return {}
+    return {i: init_int(e) for i, e in init_elems(g.get("init")).items()}
+
+
+def find_spec(prog, m, kind):
+    """The model_thread_spec / model_cpu_spec global whose .model is &model_X."""
+    rec = "model_%s_spec" % kind
+    for g in prog.globals.values():
+        init = g.get("init")
+        if not init or init.get("k") != "rec" or init.get("rec") != rec:
+            continue
+        mm = init_field(init, "model")
+        if mm and mm.get("k") == "addr" and mm["name"] == m.spec_name:
+            return g
+    return None
+
+
+def chan_spec(prog, m, kind="thread"):
+    """Resolved channel specification of a model for threads or CPUs.
+    Returns None if the model has none."""
+    g = find_spec(prog, m, kind)
+    if g is None:
+        return None
+    file = g["file"]
+    cs = _deref(prog, init_field(g["init"], "chan"), file)
+    if cs is None:
+        raise AnalysisBroken("%s: model_%s_spec without chan spec" % (m.name, kind))
+    ci = cs["init"]
+    out = dict(spec_global=g, chan_global=cs, file=file)
+    out["nch"] = init_int(init_field(ci, "nch"))
+    names_g = _deref(prog, init_field(ci, "ch_names"), file)
+    out["names"] = {i: (e.get("s") if e.get("k") == "str" else None)
+                    for i, e in init_elems(names_g.get("init") if names_g else None).items()}
+    out["stack"] = _int_array(_deref(prog, init_field(ci, "ch_stack"), file))
+    out["dup"] = _int_array(_deref(prog, init_field(ci, "ch_dup"), file))
+    tr = _deref(prog, init_field(ci, "track"), file)
+    out["track_global"] = tr
+    out["track"] = _int_array(tr)
+    out["track_explicit"] = set(init_elems(tr.get("init")).keys()) if tr else set()
+    pv = _deref(prog, init_field(ci, "pvt"), file)
+    out["pvt_global"] = pv
+    if pv is not None:
+        pi = pv["init"]
+        out["type"] = _int_array(_deref(prog, init_field(pi, "type"), file))
+        out["flags"] = _int_array(_deref(prog, init_field(pi, "flags"), file))
+        pg = _deref(prog, init_field(pi, "prefix"), file)
+        out["prefix"] = {i: e.get("s") for i, e in init_elems(pg.get("init") if pg else None).items()}
+        lg = _deref(prog, init_field(pi, "label"), file)
+        labels = {}
+        if lg is not None:
+            for i, e in init_elems(lg.get("init")).items():
+                tg = _deref(prog, e, file)
+                if tg is None:
+                    continue
+                labels[i] = dict(name=tg["name"], values=label_table(tg))
+        out["labels"] = labels
+    return out
+
+
+def label_table(g):
+    """pcf_value_label[] -> [(value, label)] up to the {-1, NULL} terminator."""
+    out = []
+    for i, e in sorted(init_elems(g.get("init")).items()):
+        v = init_int(init_field(e, "value"), 0)
+        lab = init_field(e, "label")
+        if lab is None or lab.get("k") != "str":
+            break
+        out.append((v, lab["s"]))
+    return out
+
+
+def file_enumerator(prog, name, file_prefix):
+    """Value of an enumerator defined in an enum located in a file with the
+    given prefix (models reuse names such as CH_MAX in private headers)."""
+    for en, e in prog.enums.items():
+        if e["file"].startswith(file_prefix):
+            for n, v in e["enumerators"]:
+                if n == name:
+                    return v
+    return None
+
+
+def file_enumerators(prog, file_prefix):
+    out = {}
+    for en, e in prog.enums.items():
+        if e["file"].startswith(file_prefix):
+            for n, v in e["enumerators"]:
+                out.setdefault(n, v)
+    return out
